@@ -95,6 +95,25 @@ Theorem authority_agrees_rfc3986_refuted :
 Proof. exact port_text_exact_refuted. Qed.
 Print Assumptions authority_agrees_rfc3986_refuted.
 
+(* "no double-encoding of valid escapes": when every '%' of a component begins an escape, each stays one '%' (and its hex digits
+   are only upper-cased); the statement for every component is false of the code that exists - see the refutation below *)
+Definition all_escapes_valid (comp : str) : bool :=
+  Nat.eqb (snd (upper_escapes comp)) (length (filter (fun b => b =? PCT) (utf8_sp (fst (upper_escapes comp))))).
+Theorem valid_escapes_kept_partial : forall allowed comp, all_escapes_valid comp = true ->
+  encode_invalid_chars allowed comp =
+  flat_map (fun b => if (b =? PCT) || ((b <? 128) && allowed b) then [b] else pct_byte b) (utf8_sp (fst (upper_escapes comp))).
+Proof.
+  intros allowed comp H. unfold encode_invalid_chars, all_escapes_valid in *. destruct (upper_escapes comp) as [c n]. cbn [fst snd] in *.
+  rewrite H. reflexivity.
+Qed.
+Print Assumptions valid_escapes_kept_partial.
+
+(* one '%' that begins no escape makes _encode_invalid_chars encode every '%' of the component: the valid escape %41 comes out as %2541 (C14-F2) *)
+Theorem valid_escapes_kept_refuted : exists comp,
+  all_escapes_valid comp = false /\ comp = S!"/a%41%zz" /\ encode_invalid_chars path_char comp = S!"/a%2541%25zz".
+Proof. exists (S!"/a%41%zz"). vm_compute. repeat split. Qed.
+Print Assumptions valid_escapes_kept_refuted.
+
 (* non-vacuity: a hostile URL *)
 Example c14_nonvacuous :
   option_map (fun r => (scheme r, auth r, host r, port r, path r))
